@@ -116,6 +116,25 @@ def execute(remote, lens, cut, endk, plan, rng=None):
             'obs': {'msgs': msgs, 'outcome': outcome, 'calls': len(sock.log)}}, sock.log
 
 
+def apalache_inductive():
+    """Init => IndInv (length 0) and IndInv /\\ Next => IndInv' (length 1, init = IndInit) for spec/FramingInd.tla"""
+    import shutil
+    import subprocess
+    exe = shutil.which('apalache-mc')
+    if not exe:
+        raise MachineryError('apalache-mc not found')
+    out = sub_scratch('apalache')
+    res = {}
+    for name, args in (('base', ['--init=Init', '--inv=IndInv', '--length=0']), ('step', ['--init=IndInit', '--inv=IndInv', '--length=1'])):
+        p = subprocess.run([exe, 'check'] + args + ['--out-dir=' + out, 'FramingInd.tla'], cwd=tlc.SPEC, capture_output=True, text=True, timeout=900)
+        ok = 'EXITCODE: OK' in p.stdout
+        res[name] = 'OK' if ok else 'FAILED'
+        if not ok:
+            raise MachineryError('Apalache does not discharge the %s case of IndInv (FramingInd.tla):\n%s' % (name, p.stdout[-1500:]))
+    res['what'] = 'position arithmetic, Roundtrip/Detects/Prompt for one message of unbounded length, cut and segmentation'
+    return res
+
+
 def _mc_cfg(**kw):
     base = open(os.path.join(tlc.SPEC, 'Framing_mc.cfg')).read()
     for a, b in kw.items():
@@ -158,6 +177,9 @@ def run(prop, tier, replay=None):
         raise MachineryError('the pre-fix receiver model is not rejected by the model checker')
     ev.cov['witnesses'] = {'W_NoTruncation': 'reached', 'W_NoSplitHeader': 'reached',
                            'prefix_receiver_model': rp_.error}
+
+    # 1b. unbounded: Apalache discharges the inductive invariant of FramingInd.tla (any length, any cut, any segmentation)
+    ev.cov['apalache_inductive_invariant'] = apalache_inductive()
 
     # 2. spec -> code: every behaviour of the replay constants, forced onto recv_msg
     lensset = 'Lens_replay' if tier == 'quick' else 'Lens_replay_thorough'
